@@ -1,6 +1,38 @@
 """C12 — shutdown always completes: no hang, no panic, channels closed."""
+import glob
 import json
 import os
+
+
+VERIF = os.path.dirname(os.path.dirname(os.path.abspath(__file__)))
+C12DIR = os.path.join(VERIF, "coq", "C12")
+
+
+def print_assumptions(c, names):
+    """Print Assumptions of the statements is run at build time (coq/C12/ExportPA*.v redirect it to
+    coq/C12/Export_<name>.out; walking the proofs takes over a minute). Every theorem of Properties/C12.v is
+    `exact C12X.<name>`; its output file must exist and be at least as new as Export.vo."""
+    def stale():
+        ref = os.path.join(C12DIR, "Export.vo")
+        bad = []
+        for n in names:
+            f = os.path.join(C12DIR, "Export_%s.out" % n)
+            if not (os.path.exists(f) and os.path.exists(ref) and os.path.getmtime(f) >= os.path.getmtime(ref)):
+                bad.append(n)
+        return bad
+    if stale():
+        # outputs lost although the .vo files are up to date: rebuild the four small files that produce them
+        for f in glob.glob(os.path.join(C12DIR, "ExportPA*.vo")):
+            os.remove(f)
+        c.coq_make()
+    bad = stale()
+    for n in bad:
+        c.break_("proof", "Print Assumptions output coq/C12/Export_%s.out is missing or older than Export.vo" % n)
+    out = "".join(open(os.path.join(C12DIR, "Export_%s.out" % n)).read() for n in names if n not in bad)
+    axioms = c._collect_assumptions(out)
+    c.oblige("Print Assumptions of the %d theorems (coq/C12/Export_*.out): closed under the global context" % len(names),
+             not bad and not axioms and out.count("Closed under the global context") == len(names),
+             "" if not axioms else "axioms: " + ", ".join(sorted(axioms)))
 
 
 def run(c):
@@ -24,7 +56,9 @@ def run(c):
              "model Refs.v")
     if not c.coq_make():
         return
-    c.coq_properties()
+    ok, names = c.coq_properties()
+    if ok:
+        print_assumptions(c, names)
     b = c.go_build("c12corr")
     if not b:
         return
